@@ -1423,8 +1423,14 @@ impl<'a> Model<'a> {
                 column: a.1,
                 row: a.0,
             };
-            // evaluate the anchor and discard the result
-            let _ = self.evaluate_cell(anchor_cell_reference);
+            // evaluate the anchor and discard the result. An anchor is a formula cell: a workbook (e.g. a
+            // damaged file) in which the anchor is missing or is itself a spill cell must not recurse forever
+            if matches!(
+                self.fetch_cell(anchor_cell_reference),
+                Some(Cell::ArrayFormula { .. }) | Some(Cell::CellFormula { .. })
+            ) {
+                let _ = self.evaluate_cell(anchor_cell_reference);
+            }
             // refetch the cell after evaluating the spill reference
             let cell = match self.fetch_cell(cell_reference) {
                 Some(c) => c,
